@@ -172,7 +172,7 @@ def attr_as_text(v):
 def model_doc_canon(md):
     """model WDoc JSON -> comparable form (nodes sorted by NodeId text, refs sorted)"""
     return {"uris": md["uris"], "model_uri": md["model_uri"], "version": md["version"],
-            "required": [[r["uri"], r["version"], r["publication_date"] or "<now>"] for r in md["required"]],
+            "required": [[r["uri"], r["version"], r["publication_date"]] for r in md["required"]],
             "nodes": sorted(({"cls": n["cls"], "attrs": dict(n["attrs"]), "display": n["display"], "description": n["description"],
                               "refs": sorted(map(json.dumps, n["refs"])), "value": canon_value_text(n["value_text"])}
                              for n in md["nodes"]), key=lambda n: n["attrs"]["NodeId"])}
@@ -215,15 +215,9 @@ def impl_doc_canon(text):
 
 
 def same_docs(a, b):
-    """L1 equality; a required model without publication date is written with the current time (not compared)"""
+    """L1 equality"""
     a, b = dict(a), dict(b)
     a.pop("_now", None), b.pop("_now", None)
-    ra, rb = a.pop("required"), b.pop("required")
-    if len(ra) != len(rb):
-        return False
-    for x, y in zip(ra, rb):
-        if x[:2] != y[:2] or (x[2] != y[2] and "<now>" not in (x[2], y[2])):
-            return False
     return a == b
 
 
